@@ -23,6 +23,7 @@ import ast
 from ..index import AnalysisError
 from .. import astq
 from . import _c06_sym as S
+from ._c06_shape import ShapeEval
 from ._c06_ctor import CtorFlow, PARAM, CONST
 from ._c06_sym import K, P, F, NONE, Undecidable, call, sub, neg, mk_cmp, mk_is, mk_not, mk_prod, kwargs_of, show
 
@@ -72,6 +73,33 @@ def _all_list(ctx, rule, mod):
     return names
 
 
+class MetricExec(S.SymExec):
+    """Records, per path, which terms went through sklearn's _check_reg_targets (they are 2-D (n, k) afterwards)."""
+
+    def _call(self, e, st, module, depth):
+        r = super()._call(e, st, module, depth)
+        if r[0] == "tuple" and len(r[1]) == 4 and r[1][0] == ("k", "<y_type>"):
+            st.effects.append(("rank2", r[1][1]))
+            st.effects.append(("rank2", r[1][2]))
+        return r
+
+
+FULL_SLICE = ("slice", NONE, NONE, NONE)
+
+
+def strip_reshape(t):
+    """Remove shape-only wrappers (x[:, None], x.reshape(-1, 1), np.reshape/expand_dims/asarray): same values."""
+    while True:
+        if t[0] == "idx" and t[2][0] == "tuple" and all(i in (FULL_SLICE, NONE, F("numpy.newaxis")) for i in t[2][1]):
+            t = t[1]
+        elif t[0] == "call" and t[1][0] == "attr" and t[1][2] == "reshape":
+            t = t[1][1]
+        elif t[0] == "call" and t[1] in (F("numpy.reshape"), F("numpy.expand_dims"), F("numpy.asarray")) and (t[2] or "a" in dict(t[3])):
+            t = t[2][0] if t[2] else dict(t[3])["a"]
+        else:
+            return t
+
+
 class World:
     """Everything the rules share: modules, executors, constructor flow, discovered tables."""
 
@@ -95,7 +123,8 @@ class World:
         sym = repo.resolve_name(self.fmod, "check_series")
         if sym is not None and sym.kind == "func" and self.cf.is_identity(sym.module, sym.target):
             self.identity_note.append(sym.dotted)
-        self.ex = S.SymExec(repo, identity=identity, transfers={CHECK_REG: _check_reg_targets},
+        self.ex_shape = S.SymExec(repo, identity={"numpy.asarray"})  # nothing inlined, shape-changing calls kept
+        self.ex = MetricExec(repo, identity=identity, transfers={CHECK_REG: _check_reg_targets},
                             keep=lambda d: d in keep, inline_modules={FMOD}, identity_pred=self.cf.is_identity)
         self.ex_plain = S.SymExec(repo, identity=identity, identity_pred=self.cf.is_identity)
         self.eps = self.ex.module_const(self.fmod, "EPS")
@@ -855,7 +884,8 @@ def check_direct(ctx, w, name, fn, agg, toks, normal, params, loc):
         items = []
         for p, sh in sel:
             if tag == "weighted":
-                good = True if sh.weight == HW else (False if sh.weight == "NOSLOT" else role_verdict(sh.weight, HW))
+                wt = sh.weight if sh.weight == "NOSLOT" else strip_reshape(sh.weight)
+                good = True if wt == HW else (False if wt == "NOSLOT" else role_verdict(wt, HW))
                 bad = ("horizon_weight is given but the %s aggregator %s" %
                        (sh.family, "takes no weights" if sh.weight == "NOSLOT" else "receives weights=%s" % show(sh.weight)))
             else:
@@ -863,6 +893,25 @@ def check_direct(ctx, w, name, fn, agg, toks, normal, params, loc):
                 bad = "unweighted branch passes weights=%s" % (sh.weight if sh.weight == "NOSLOT" else show(sh.weight))
             items.append((good, bad))
         _all(ctx, "R3", pre + ":horizon_weight", items, "horizon_weight reaches the aggregator", loc)
+        if tag == "weighted":
+            # R3: the per-row weights meet the (n, k) error matrix along the horizon axis (exact shapes, numpy broadcasting)
+            items = []
+            for p, sh in sel:
+                env = {HW: ("n",)}
+                for role in (YT, YP, YB):
+                    if ("rank2", role) in p.effects:
+                        env[role] = ("n", "k")
+                se = ShapeEval(w, env, [HW], FMOD)
+                se.shape(p.value)
+                if se.problems:
+                    items.append((False, "horizon_weight of shape (n,) is not applied along the horizon axis of the (n, k) errors: %s "
+                                         "(witness: n = 3, one output, horizon_weight = [1, 0, 0] must return the first error; "
+                                         "uniform weights hide it)" % se.problems[0]))
+                elif se.uncertain:
+                    items.append((None, "cannot derive the shapes where the horizon weights are applied: %s" % se.uncertain[0]))
+                else:
+                    items.append((True, ""))
+            _all(ctx, "R3", pre + ":weight-axis", items, "1-D horizon weights are aligned with axis 0 of the (n, k) errors", loc)
         check_kernel_calls(ctx, w, name, tag, [sh.T for _, sh in sel], params, loc)
         # R5 aggregator family / axis
         _all(ctx, "R5", pre + ":aggregator",
@@ -1218,6 +1267,9 @@ def run(ctx):
                 "preservation, option forwarding, weighted/unweighted agreement, the name<->operator table and the kernel "
                 "formulas are decided as term identities. Numeric values are not decided.")
     ctx.assume("sklearn's _check_reg_targets returns (type, y_true, y_pred, multioutput) with unchanged values")
+    ctx.assume("horizon_weight is one-dimensional of length n (documented shape (fh,)); after _check_reg_targets y_true, y_pred, "
+               "y_pred_benchmark are two-dimensional (n, k); np.average aligns 1-D weights with `axis`; sklearn 0.24 "
+               "_weighted_percentile tiles 1-D sample_weight over the columns; numpy broadcasting aligns trailing axes")
     ctx.assume("np.asarray / np.expand_dims / check_series (proved to return its argument) do not change values")
     ctx.assume("np.average(weights=None) is the plain mean; _weighted_percentile(percentile=50) is the weighted median; "
                "np.abs and np.square are even; np.maximum/np.minimum are symmetric; sklearn.metrics.mean_absolute_error / "
